@@ -393,7 +393,8 @@ def diff(before, after):
     Return a dictionary with the difference between 'before' and 'after',
     for items which are present in 'after' dictionary
     """
-    diff = dict((k, v) for (k, v) in after.items() if before.get(k, None) != v)
+    # A key that is new in 'after' is a difference even when its value is None (an option without any value)
+    diff = dict((k, v) for (k, v) in after.items() if k not in before or before[k] != v)
     return diff
 
 
